@@ -35,6 +35,7 @@ def cell(res):
 def main():
     rows = []
     caught_first = caught_now = total = 0
+    per_round = {}
     for d in sorted((VERIF / "seeded").iterdir(), key=lambda p: key(p.name)):
         m = json.loads((d / "meta.json").read_text())
         now = {p: c.get("caught") for p, c in m.get("what_i_ran", {}).get("checks", {}).items()}
@@ -43,6 +44,12 @@ def main():
         total += 1
         caught_first += bool(first.get(own) is True)
         caught_now += bool(now.get(own) is True)
+        rnd = (key(d.name)[1] - 1) // 3 + 1
+        pr = per_round.setdefault(rnd, [0, 0, 0, 0])
+        pr[0] += 1
+        pr[1] += bool(first.get(own) is True)
+        pr[2] += bool(now.get(own) is True)
+        pr[3] += bool(any(v is True for v in now.values()))
         how = ""
         lines = m.get("what_i_ran", {}).get("checks", {}).get(own, {}).get("lines", [])
         for l in lines:
@@ -57,7 +64,9 @@ def main():
     head = ("| seed | what the change does | what it needs to manifest | first run (before strengthening) | "
             "now | how it is reported now |\n|---|---|---|---|---|---|\n")
     summary = (f"\n{total} independent changes; the property's own check caught {caught_first} of them when first run and "
-               f"catches {caught_now} now (the others are caught by the check of a sibling property, see the columns).\n")
+               f"catches {caught_now} now (the others are caught by the check of a sibling property, see the columns).\n\n"
+               + "| round | seeds | own check caught at first run | own check catches now | some check catches now |\n|---|---|---|---|---|\n"
+               + "".join(f"| {r} | {v[0]} | {v[1]} | {v[2]} | {v[3]} |\n" for r, v in sorted(per_round.items())))
     text = head + "\n".join(rows) + "\n" + summary
     p = VERIF / "DESIGN.md"
     s = p.read_text()
